@@ -102,7 +102,32 @@ var c09QueryAlpha = []rune("ab1 -_/.é")
 
 // genAction draws one action, applies it to the model and returns its spelling.
 func (m *uiModel) genAction(t *rapid.T, classes map[string]bool) string {
-	class := rapid.SampledFrom([]string{"put", "put", "edit", "edit", "nav", "nav", "sel", "sel", "change-query", "pos", "put-from-current", "hidden-input"}).Draw(t, "class")
+	class := rapid.SampledFrom([]string{"put", "put", "edit", "edit", "nav", "nav", "sel", "sel", "change-query", "pos", "put-from-current", "hidden-input", "kill-edit-yank"}).Draw(t, "class")
+	if class == "kill-edit-yank" {
+		// what was killed is kept as it was, whatever is done to the query line before it is yanked back
+		var acts []string
+		apply := func(a, arg string) {
+			m.ed.Apply(a, arg)
+			if arg != "" {
+				acts = append(acts, a+"("+arg+")")
+			} else {
+				acts = append(acts, a)
+			}
+		}
+		apply(rapid.SampledFrom([]string{"backward-char", "backward-word", "beginning-of-line", "backward-char"}).Draw(t, "moveBeforeKill"), "")
+		apply(rapid.SampledFrom([]string{"kill-line", "kill-line", "kill-word", "backward-kill-word", "unix-line-discard", "unix-word-rubout"}).Draw(t, "kill"), "")
+		for i, n := 0, rapid.IntRange(1, 3).Draw(t, "editsBeforeYank"); i < n; i++ {
+			switch e := rapid.SampledFrom([]string{"backward-char", "put", "put", "backward-delete-char", "forward-char", "beginning-of-line"}).Draw(t, "editBeforeYank"); e {
+			case "put":
+				apply("put", string(rapid.SliceOfN(rapid.SampledFrom(c09QueryAlpha), 1, 3).Draw(t, "text")))
+			default:
+				apply(e, "")
+			}
+		}
+		apply("yank", "")
+		classes["edit"], classes["killyank"] = true, true
+		return strings.Join(acts, "+")
+	}
 	if class == "hidden-input" {
 		// the input section is hidden for a while ("you can no longer type in queries"): whatever
 		// editing action runs meanwhile, the query is the same when the section is shown again.
